@@ -384,7 +384,7 @@ theorem entry_fnd (cfg : Cfg) (h : FND cfg) (k : Kind) (s : St) (E : Env) (d f t
               have hsm : (saveFilt s.filt).maxDepth = s.filt.maxDepth := rfl
               have hso : (saveFilt s.filt).outCount = s.filt.outCount := rfl
               simp only [entryFilterCheck, hck, h.fast, Bool.false_eq_true, ↓reduceIte, hso, h1', htr0, matchFilt,
-                hearly, trigFilt, trigEnabled, depthLimit, hsm, r4, hsd, hdep, Option.getD_none]
+                hearly, trigFilt, trigEnabled, depthLimit, hsm, r4, hsd, hdep, Option.getD_none, traceOffFlush_none]
             simp only [h5, ↓reduceIte]
             have hrel : ∀ (S : St), S.filt.inCount = s.filt.inCount → S.filt.outCount = s.filt.outCount →
                 S.filt.depth = s.filt.depth + 1 → S.filt.maxDepth = noMaxDepth → S.filt.time = noTime →
@@ -752,5 +752,415 @@ theorem record_out (cfg : Cfg) (h : FND cfg) (k : Kind) (cs : Calls) (n : Nat)
     (by simp [St.init]; exact hh) hn
   rw [o]
   simp [St.init, pend, flushBelow, spec, RCfg.ofRecord]
+
+/-! ### finding F-C07-TRACEOFF-FLUSH: the flush at the TRACE_OFF update of mcount_entry_filter_check
+
+`pend fs` is what record_trace_data owes for the stack `fs` (innermost first): the ENTRY records of the
+unwritten recordable frames, outermost first, down to the first written frame.  `WDown` is the lazy
+writer's invariant (below a written frame every recordable frame is written; holds in every reachable
+state, `wdown_runCalls`), under which `pend` is all unwritten recordable frames (`owed`). -/
+namespace Flush
+open Uft.Mcount
+
+/-- every recordable (not NORECORD, not DISABLED) frame has its ENTRY record written -/
+def AllWritten (fs : List Frame) : Prop := ∀ F ∈ fs, F.skip = false → F.written = true
+
+/-- below a written frame every recordable frame is written -/
+def WDown : List Frame → Prop
+  | [] => True
+  | F :: r => (F.written = true → AllWritten r) ∧ WDown r
+
+/-- the ENTRY records of all unwritten recordable frames, outermost first -/
+def owed : List Frame → List Rec
+  | [] => []
+  | F :: r => owed r ++ (if !F.written && !F.skip then [entryRec F] else [])
+
+/-- the calls still open: `end_time` is 0 until the exit hook sets it -/
+def Open (fs : List Frame) : Prop := ∀ F ∈ fs, F.endT = 0
+
+theorem owed_allWritten : ∀ (fs : List Frame), AllWritten fs → owed fs = []
+  | [], _ => rfl
+  | F :: r, h => by
+    have hr : AllWritten r := fun G hG => h G (by simp [hG])
+    simp only [owed, owed_allWritten r hr, List.nil_append]
+    cases hs : F.skip with
+    | true => simp
+    | false => simp [h F (by simp) hs]
+
+theorem flushBelow_wdown : ∀ (fs : List Frame), WDown fs →
+    WDown (flushBelow fs).1 ∧ AllWritten (flushBelow fs).1 ∧ (flushBelow fs).2 = owed fs
+  | [], _ => ⟨trivial, fun _ h => by simp [flushBelow] at h, rfl⟩
+  | F :: r, h => by
+    obtain ⟨ih1, ih2, ih3⟩ := flushBelow_wdown r h.2
+    simp only [flushBelow]
+    by_cases hw : F.written = true
+    · simp only [hw, ↓reduceIte]
+      refine ⟨h, ?_, ?_⟩
+      · intro G hG hs
+        simp only [List.mem_cons] at hG
+        rcases hG with rfl | hG
+        · exact hw
+        · exact h.1 hw G hG hs
+      · simp [owed, hw, owed_allWritten r (h.1 hw)]
+    · have hw' : F.written = false := by simpa using hw
+      simp only [hw', Bool.false_eq_true, ↓reduceIte]
+      by_cases hs : F.skip = true
+      · simp only [hs, ↓reduceIte]
+        refine ⟨⟨fun hx => by simp [hw'] at hx, ih1⟩, ?_, ?_⟩
+        · intro G hG hsG
+          simp only [List.mem_cons] at hG
+          rcases hG with rfl | hG
+          · simp [hs] at hsG
+          · exact ih2 G hG hsG
+        · simp [owed, hw', hs, ih3]
+      · have hs' : F.skip = false := by simpa using hs
+        simp only [hs', Bool.false_eq_true, ↓reduceIte]
+        refine ⟨⟨fun _ => ih2, ih1⟩, ?_, ?_⟩
+        · intro G hG hsG
+          simp only [List.mem_cons] at hG
+          rcases hG with rfl | hG
+          · rfl
+          · exact ih2 G hG hsG
+        · simp [owed, hw', hs', ih3]
+
+/-- under the invariant, what record_trace_data owes is every unwritten recordable frame -/
+theorem pend_eq_owed (fs : List Frame) (h : WDown fs) : pend fs = owed fs := (flushBelow_wdown fs h).2.2
+
+theorem mark_allWritten (fs : List Frame) (h : WDown fs) : AllWritten (mark fs) := (flushBelow_wdown fs h).2.1
+
+theorem mark_wdown (fs : List Frame) (h : WDown fs) : WDown (mark fs) := (flushBelow_wdown fs h).1
+
+theorem flushBelow_addr : ∀ (fs : List Frame), (flushBelow fs).1.map Frame.addr = fs.map Frame.addr
+  | [] => rfl
+  | F :: r => by
+    simp only [flushBelow]
+    split
+    · rfl
+    · split <;> simp [flushBelow_addr r]
+
+theorem mark_addr (fs : List Frame) : (mark fs).map Frame.addr = fs.map Frame.addr := flushBelow_addr fs
+
+theorem wdown_of_allWritten : ∀ (fs : List Frame), AllWritten fs → WDown fs
+  | [], _ => trivial
+  | F :: r, h => ⟨fun _ G hG => h G (by simp [hG]), wdown_of_allWritten r (fun G hG => h G (by simp [hG]))⟩
+
+theorem flushBelow_endT : ∀ (fs : List Frame), (flushBelow fs).1.map (·.endT) = fs.map (·.endT)
+  | [] => rfl
+  | F :: r => by
+    simp only [flushBelow]
+    split
+    · rfl
+    · split <;> simp [flushBelow_endT r]
+
+theorem recordTrace_endT (fs : List Frame) : (recordTrace fs).1.map (·.endT) = fs.map (·.endT) := by
+  cases fs with
+  | nil => rfl
+  | cons top rest =>
+    simp only [recordTrace]
+    split <;> split <;> split <;> simp [flushBelow_endT]
+
+theorem open_of_map {fs gs : List Frame} (h : gs.map (·.endT) = fs.map (·.endT)) (ho : Open fs) : Open gs := by
+  intro G hG
+  have : G.endT ∈ fs.map (·.endT) := by rw [← h]; exact List.mem_map_of_mem hG
+  obtain ⟨F, hF, hFe⟩ := List.mem_map.mp this
+  rw [← hFe]; exact ho F hF
+
+/-- record_trace_data for a stack of open calls is the downward walk -/
+theorem recordTrace_pend (fs : List Frame) (ho : Open fs) : recordTrace fs = (mark fs, pend fs) := by
+  cases fs with
+  | nil => rfl
+  | cons top rest =>
+    have he : top.endT = 0 := ho top (by simp)
+    simp only [recordTrace, mark, pend, flushBelow, he]
+    by_cases hw : top.written = true
+    · simp [hw]
+    · by_cases hs : top.skip = true
+      · simp [hw, hs]
+      · simp [hw, hs]
+
+theorem wdown_tail : ∀ (fs : List Frame), WDown fs → WDown fs.tail
+  | [], h => h
+  | _ :: _, h => h.2
+
+theorem recordTrace_wdown (fs : List Frame) (h : WDown fs) : WDown (recordTrace fs).1 := by
+  cases fs with
+  | nil => exact h
+  | cons top rest =>
+    obtain ⟨f1, f2, _⟩ := flushBelow_wdown rest h.2
+    simp only [recordTrace]
+    by_cases hw : top.written = true
+    · simp only [hw, ↓reduceIte, Bool.not_true, Bool.false_and, Bool.false_eq_true]
+      split
+      · exact ⟨fun _ => h.1 hw, h.2⟩
+      · exact ⟨fun _ => h.1 hw, h.2⟩
+    · simp only [hw, Bool.false_eq_true, ↓reduceIte]
+      split <;> split <;> exact ⟨fun _ => f2, f1⟩
+
+/-! the hooks keep the invariant and the open calls -/
+
+/-- the invariant of the shadow stack between hooks -/
+def FInv (fs : List Frame) : Prop := WDown fs ∧ Open fs
+
+def Inv (s : St) : Prop := FInv s.frames
+
+theorem finv_recordTrace (fs : List Frame) (h : FInv fs) : FInv (recordTrace fs).1 :=
+  ⟨recordTrace_wdown _ h.1, open_of_map (recordTrace_endT _) h.2⟩
+
+theorem finv_head (F G : Frame) (rest : List Frame) (h : FInv (F :: rest)) (hw : G.written = F.written)
+    (he : G.endT = F.endT) : FInv (G :: rest) := by
+  refine ⟨⟨fun hx => h.1.1 (hw ▸ hx), h.1.2⟩, ?_⟩
+  intro X hX
+  simp only [List.mem_cons] at hX
+  rcases hX with rfl | hX
+  · rw [he]; exact h.2 F (by simp)
+  · exact h.2 X (by simp [hX])
+
+theorem finv_push (F : Frame) (fs : List Frame) (h : FInv fs) (hw : F.written = false) (he : F.endT = 0) :
+    FInv (F :: fs) :=
+  ⟨⟨fun hx => by simp [hw] at hx, h.1⟩, fun G hG => by
+    simp only [List.mem_cons] at hG
+    rcases hG with rfl | hG
+    · exact he
+    · exact h.2 G hG⟩
+
+theorem finv_tail : ∀ (fs : List Frame), FInv fs → FInv fs.tail
+  | [], h => h
+  | F :: r, h => ⟨h.1.2, fun G hG => h.2 G (by simp only [List.tail_cons] at hG; simp [hG])⟩
+
+theorem inv_traceOffFlush (cfg : Cfg) (s : St) (tr : Trigger) (h : Inv s) : Inv (traceOffFlush cfg s tr) := by
+  unfold traceOffFlush
+  split
+  · exact finv_recordTrace _ h
+  · exact h
+
+theorem inv_checkRstack (cfg : Cfg) (s : St) (h : Inv s) : Inv (checkRstack cfg s).2 := by
+  unfold checkRstack
+  split
+  · split
+    · exact finv_recordTrace _ h
+    · exact h
+  · exact h
+
+theorem inv_entryFilterCheck (cfg : Cfg) (s : St) (f : Nat) (h : Inv s) : Inv (entryFilterCheck cfg s f).2.1 := by
+  have hc := inv_checkRstack cfg s h
+  unfold entryFilterCheck
+  generalize checkRstack cfg s = cr at hc
+  obtain ⟨b, s'⟩ := cr
+  simp only at hc ⊢
+  split
+  · exact hc
+  · split
+    · split <;> exact hc
+    · split
+      · exact hc
+      · split
+        · exact hc
+        · have := inv_traceOffFlush cfg s' (cfg.trig f) hc
+          split <;> exact this
+
+theorem entryFilterRecord_frames (cfg : Cfg) (s : St) (tr : Trigger) (F : Frame) (rest : List Frame)
+    (hfr : s.frames = F :: rest) :
+    ∃ G : Frame, G.written = F.written ∧ G.endT = F.endT ∧
+      ((entryFilterRecord cfg s tr).frames = G :: rest ∨
+       (entryFilterRecord cfg s tr).frames = (recordTrace (G :: rest)).1) := by
+  unfold entryFilterRecord
+  simp only [hfr]
+  repeat' split
+  all_goals first
+    | exact ⟨F, rfl, rfl, Or.inl rfl⟩
+    | (refine ⟨_, ?_, ?_, Or.inl rfl⟩ <;> rfl)
+    | (refine ⟨_, ?_, ?_, Or.inr rfl⟩ <;> rfl)
+
+theorem inv_entryFilterRecord (cfg : Cfg) (s : St) (tr : Trigger) (h : Inv s) : Inv (entryFilterRecord cfg s tr) := by
+  cases hfr : s.frames with
+  | nil =>
+    have : entryFilterRecord cfg s tr = s := by unfold entryFilterRecord; simp [hfr]
+    rw [this]; exact h
+  | cons F rest =>
+    have hF : FInv (F :: rest) := by simpa [Inv, hfr] using h
+    obtain ⟨G, hw, he, hG⟩ := entryFilterRecord_frames cfg s tr F rest hfr
+    have hGi := finv_head F G rest hF hw he
+    unfold Inv
+    rcases hG with hG | hG
+    · rw [hG]; exact hGi
+    · rw [hG]; exact finv_recordTrace _ hGi
+
+theorem inv_entry (cfg : Cfg) (k : Kind) (s : St) (f t0 : Nat) (h : Inv s) : Inv (entry cfg k s f t0).1 := by
+  have hc := inv_entryFilterCheck cfg s f h
+  unfold entry
+  generalize entryFilterCheck cfg s f = c at hc
+  obtain ⟨fr, s1, tr⟩ := c
+  simp only at hc ⊢
+  cases k with
+  | pg =>
+    simp only
+    split
+    · exact hc
+    · exact inv_entryFilterRecord cfg _ tr (finv_push _ _ hc rfl rfl)
+  | cyg =>
+    simp only
+    split
+    · exact hc
+    · exact inv_entryFilterRecord cfg _ tr (finv_push _ _ hc rfl rfl)
+
+theorem exitFilterRecord_frames (cfg : Cfg) (s : St) :
+    (exitFilterRecord cfg s).frames = s.frames ∨ (exitFilterRecord cfg s).frames = (recordTrace s.frames).1 := by
+  unfold exitFilterRecord
+  cases hfr : s.frames with
+  | nil => left; simp [hfr]
+  | cons F rest =>
+    simp only
+    repeat' split
+    all_goals first
+      | exact Or.inl hfr
+      | exact Or.inl rfl
+      | exact Or.inr rfl
+
+/-- the frame being popped may carry its exit time: only the frames below it stay -/
+theorem inv_exit (cfg : Cfg) (s : St) (t : Nat) (h : Inv s) : Inv (exit cfg s t) := by
+  unfold exit
+  split
+  · exact h
+  · cases hfr : s.frames with
+    | nil => simpa [Inv, hfr] using h
+    | cons F rest =>
+      have hF : FInv (F :: rest) := by simpa [Inv, hfr] using h
+      have hrest : FInv rest := finv_tail _ hF
+      have key : ∀ (G : Frame), G.written = F.written →
+          FInv (exitFilterRecord cfg { s with frames := G :: rest }).frames.tail := by
+        intro G hw
+        have hwd : WDown (G :: rest) := ⟨fun hx => hF.1.1 (hw ▸ hx), hF.1.2⟩
+        have hR : FInv (recordTrace (G :: rest)).1.tail := by
+          refine ⟨wdown_tail _ (recordTrace_wdown _ hwd), ?_⟩
+          have hm := recordTrace_endT (G :: rest)
+          cases hr : (recordTrace (G :: rest)).1 with
+          | nil => intro X hX; simp at hX
+          | cons a b =>
+            rw [hr] at hm
+            simp only [List.map_cons, List.cons.injEq] at hm
+            exact open_of_map hm.2 hrest.2
+        rcases exitFilterRecord_frames cfg { s with frames := G :: rest } with he | he
+        · rw [he]; exact hrest
+        · rw [he]; exact hR
+      simp only
+      split
+      · exact key F rfl
+      · exact key _ rfl
+
+mutual
+theorem inv_runCall (cfg : Cfg) (k : Kind) : ∀ (x : Call) (s : St), Inv s → Inv (runCall cfg k s x)
+  | .node f t0 t1 kids, s, h => by
+    simp only [runCall]
+    have h1 := inv_runCalls cfg k kids _ (inv_entry cfg k s f t0 h)
+    split
+    · exact inv_exit cfg _ t1 h1
+    · exact h1
+theorem inv_runCalls (cfg : Cfg) (k : Kind) : ∀ (xs : Calls) (s : St), Inv s → Inv (runCalls cfg k s xs)
+  | .nil, s, h => h
+  | .cons x rest, s, h => by
+    simp only [runCalls]
+    exact inv_runCalls cfg k rest _ (inv_runCall cfg k x s h)
+end
+
+theorem inv_init (cfg : Cfg) : Inv (St.init cfg) := ⟨trivial, fun _ h => by simp [St.init] at h⟩
+
+/-! what the entry hook of a function with a trace_off trigger does while tracing is on -/
+
+theorem recordTrace_disabled_top (G : Frame) (rest : List Frame) (hw : G.written = false) (hd : G.disabled = true)
+    (he : G.endT = 0) (hm : flushBelow rest = (rest, [])) : recordTrace (G :: rest) = (G :: rest, []) := by
+  simp [recordTrace, hw, hm, Frame.skip, hd, he]
+
+/-- mcount_entry_filter_record on a fresh frame while tracing is off and nothing is owed below it -/
+theorem entryFilterRecord_off (cfg : Cfg) (hfast : cfg.fast = false) (s : St) (F : Frame) (rest : List Frame)
+    (tr : Trigger) (hfin : tr.finish = false) (hfr : s.frames = F :: rest) (hen : s.enabled = false)
+    (hw : F.written = false) (hend : F.endT = 0) (hm : flushBelow rest = (rest, [])) :
+    (entryFilterRecord cfg s tr).out = s.out ∧ (entryFilterRecord cfg s tr).enabled = false ∧
+    ∃ F', F'.written = false ∧ F'.addr = F.addr ∧ (entryFilterRecord cfg s tr).frames = F' :: rest := by
+  unfold entryFilterRecord
+  simp only [hfr, hfast, hfin, Bool.false_eq_true, ↓reduceIte, hen, Bool.not_false, Bool.true_and, Bool.or_true]
+  split
+  · refine ⟨rfl, rfl, _, ?_, ?_, rfl⟩
+    · exact hw
+    · rfl
+  · split
+    · rw [recordTrace_disabled_top _ rest ?_ ?_ ?_ hm]
+      · refine ⟨by simp, rfl, _, ?_, ?_, rfl⟩
+        · exact hw
+        · rfl
+      · exact hw
+      · rfl
+      · exact hend
+    · refine ⟨by simp, rfl, _, ?_, ?_, rfl⟩
+      · exact hw
+      · rfl
+
+/-- mcount_entry_filter_check of the repaired code for a function whose trace_off trigger is reached (not inside
+    a -N region, not rejected before the TRACE_OFF update) while tracing is on: whatever the verdict, the pending
+    ENTRY records of the open callers are written and tracing is off -/
+theorem check_traceoff (cfg : Cfg) (hfix : cfg.f7fixed = true) (hfast : cfg.fast = false) (s : St) (f : Nat)
+    (hidx : s.idx < cfg.maxStack) (hout : s.filt.outCount = 0)
+    (hearly : earlyOut cfg (cfg.trig f) (saveFilt s.filt) = false)
+    (hoff : (cfg.trig f).traceOff = true) (hen : s.enabled = true) (hop : Open s.frames) :
+    ∃ (v : FR) (flt : Filt), v ≠ .rstack ∧
+      (v = .out ↔ (trigFilt (cfg.trig f) (matchFilt (cfg.trig f) (saveFilt s.filt))).depth ≥
+                    depthLimit cfg (cfg.trig f) (saveFilt s.filt)) ∧
+      entryFilterCheck cfg s f =
+        (v, { s with warned := false, filt := flt, enabled := false, frames := mark s.frames,
+                     out := s.out ++ pend s.frames }, cfg.trig f) := by
+  have hidx' : ¬ (s.idx ≥ cfg.maxStack) := by omega
+  have hrt := recordTrace_pend s.frames hop
+  have hso : ¬ ((saveFilt s.filt).outCount > 0) := by simp [saveFilt, hout]
+  have hfl : traceOffFlush cfg { s with warned := false } (cfg.trig f) =
+      { s with warned := false, frames := mark s.frames, out := s.out ++ pend s.frames } := by
+    simp [traceOffFlush, hfix, hoff, hen, hrt]
+  have hte : trigEnabled (cfg.trig f) s.enabled = false := by simp [trigEnabled, hoff]
+  unfold entryFilterCheck checkRstack
+  simp only [hidx', ↓reduceIte, hfast, Bool.false_eq_true, hso, hearly, hfl, hte]
+  by_cases hd : (trigFilt (cfg.trig f) (matchFilt (cfg.trig f) (saveFilt s.filt))).depth ≥
+      depthLimit cfg (cfg.trig f) (saveFilt s.filt)
+  · simp only [hd, ↓reduceIte]
+    exact ⟨.out, _, by decide, by simp [hd], rfl⟩
+  · simp only [hd, ↓reduceIte]
+    exact ⟨.in_, _, by decide, by simp [hd], rfl⟩
+
+/-- the entry hook of the repaired code for a function whose trace_off trigger is reached while tracing is on —
+    accepted or rejected by the filters, -pg / -mfentry or -finstrument-functions: the pending ENTRY records of
+    the open callers are written (`pend`), nothing else; the callers' frames are marked (`mark`); tracing is off -/
+theorem entry_traceoff (cfg : Cfg) (hfix : cfg.f7fixed = true) (hfast : cfg.fast = false) (k : Kind) (s : St)
+    (f t0 : Nat) (hidx : s.idx < cfg.maxStack) (hout : s.filt.outCount = 0)
+    (hearly : earlyOut cfg (cfg.trig f) (saveFilt s.filt) = false)
+    (hoff : (cfg.trig f).traceOff = true) (hfin : (cfg.trig f).finish = false)
+    (hen : s.enabled = true) (hop : Open s.frames) :
+    (entry cfg k s f t0).1.out = s.out ++ pend s.frames ∧
+    (entry cfg k s f t0).1.enabled = false ∧
+    ((entry cfg k s f t0).1.frames = mark s.frames ∨
+     ∃ F : Frame, F.written = false ∧ F.addr = f ∧ (entry cfg k s f t0).1.frames = F :: mark s.frames) := by
+  obtain ⟨v, flt, hv, _, hc⟩ := check_traceoff cfg hfix hfast s f hidx hout hearly hoff hen hop
+  have hm : flushBelow (mark s.frames) = (mark s.frames, []) := flushBelow_idem s.frames
+  unfold entry
+  rw [hc]
+  have hvr : (v == FR.rstack) = false := by cases v <;> simp_all
+  cases k with
+  | pg =>
+    simp only [hvr, Bool.false_or]
+    split
+    · exact ⟨rfl, rfl, Or.inl rfl⟩
+    · obtain ⟨o, e, F', hw, ha, hf⟩ := entryFilterRecord_off cfg hfast
+        { s with warned := false, filt := flt, enabled := false,
+                 frames := { addr := f, start := t0, depth := s.recordIdx, norecord := v != FR.in_ } :: mark s.frames,
+                 out := s.out ++ pend s.frames }
+        _ (mark s.frames) (cfg.trig f) hfin rfl rfl rfl rfl hm
+      exact ⟨o, e, Or.inr ⟨F', hw, ha, hf⟩⟩
+  | cyg =>
+    simp only [hvr, Bool.false_eq_true, ↓reduceIte]
+    obtain ⟨o, e, F', hw, ha, hf⟩ := entryFilterRecord_off cfg hfast
+      { s with warned := false, filt := flt, enabled := false,
+               frames := { addr := f, start := if (v == FR.in_) = true then t0 else 0, depth := s.recordIdx, cyg := true,
+                           norecord := !(v == FR.in_) } :: mark s.frames,
+               out := s.out ++ pend s.frames }
+      _ (mark s.frames) (cfg.trig f) hfin rfl rfl rfl rfl hm
+    exact ⟨o, e, Or.inr ⟨F', hw, ha, hf⟩⟩
+
+end Flush
 
 end Uft.Fstack
